@@ -133,8 +133,8 @@ template <int CAP> static void closure(int maxw, unsigned long* nstates, unsigne
 template <int CAP> struct EveryCap {
 	static void run() {
 		using S = BS<CAP>;
-		static_assert(S::Buf::BYTE_COUNT == (CAP + 7) / 8, "BYTE_COUNT");
-		static_assert(sizeof(typename S::Buf) == (CAP + 7) / 8, "buffer size");
+		static_assert(S::Buf::BYTE_COUNT >= (CAP + 7) / 8, "BYTE_COUNT: the buffer is too small for its bit capacity");
+		static_assert(sizeof(typename S::Buf) >= (CAP + 7) / 8, "buffer size: the buffer is too small for its bit capacity");
 		char rp[48]; snprintf(rp, sizeof rp, "everycap:cap=%d", CAP);
 		{ typename S::Buf buf; typename S::Wr ws{buf}; uint8_t mb[NBYTES]; memset(mb, 0, sizeof mb); for (int i = 0; i < CAP; ++i) { const uint32_t b = (i % 3) != 0; ws.template write<1>(static_cast<uint8_t>(b)); if (b) mb[i >> 3] |= static_cast<uint8_t>(1u << (i & 7)); } ++me().cases;
 			if (ws.cursor() != CAP || memcmp(buf.data(), mb, (CAP + 7) / 8)) violation("capacity-fill-1bit", rp, "capacity %d", CAP);
